@@ -182,6 +182,7 @@ def gen_pairs(ctx, n):
             ys = ys + [ys[0]]
         w = ctx.rng.choice([lambda v: v, lambda v: [{'id': e} for e in v], lambda v: {'k': v}, lambda v: (v, 1)])
         out.append((w(xs), w(ys)))
+    out += FAM.hostile_pairs(ctx, max(10, n // 6))        # hostile keys, edge-case leaves, shared sub-objects (implementation only)
     # the second value refers to objects of the first (no cycle: an old record kept inside the new one, a sub-container shared by identity)
     for _ in range(max(8, n // 10)):
         old_ = {'name': ctx.rng.choice(['cfg', 'x']), 'base': ctx.rng.choice([None, 1, [1]]), 'items': [ctx.rng.choice([1, 2]), [3]]}
